@@ -176,6 +176,11 @@ def make_case(rng, i, tier):
             ops.append(rng.choice(ops))
             continue
         ops.append([rng.choice(qtypes), p])
+        if rng.random() < 0.3:
+            # look-ahead that may not pan out: the context extended by an arbitrary token, then the context itself again
+            q = rng.choice(qtypes)
+            ops.append([q, p + [rng.choice(V)]])
+            ops.append([q, p])
     # contexts handed over as ONE Python list that the caller edits in place between queries (append / pop / overwrite)
     list_ctx = rng.random() < 0.2
     return {"id": i, "kind": kind, "shape": shape + ("+list_ctx" if list_ctx else ""), "cfg": desc, "ops": ops, "list_ctx": list_ctx}
